@@ -177,9 +177,9 @@ func (f *DB) Reload(path string, validationKey []byte, reloadTimeout time.Durati
 
 	// reload goroutine
 	go func() {
-		defer f.unref()
 		verifhook.Enter("dbreload.worker")
 		defer verifhook.Exit()
+		defer f.unref()
 		var localDBI DBI
 		localDBI, err = f.dbi.Reload(path)
 		verifhook.Yield("dbreload.worker.loaded")
